@@ -26,13 +26,21 @@ theorem lowerC_ne_colon (c : Char) (h : c ≠ ':') : lowerC c ≠ ':' :=
 theorem lowerC_ne_dot (c : Char) (h : c ≠ '.') : lowerC c ≠ '.' :=
   lowerC_ne_of_nonletter c '.' (by decide) (by decide) h
 
-theorem colon_not_mem_lower (h : List Char) (hh : ':' ∉ h) : ':' ∉ lower h := by
+/-- the rune map leaves the two separators alone and maps nothing else onto them (true of `unicode.ToLower`) -/
+def KeepsSep (lc : Char → Char) : Prop :=
+  lc ':' = ':' ∧ lc '.' = '.' ∧ (∀ c, c ≠ ':' → lc c ≠ ':') ∧ (∀ c, c ≠ '.' → lc c ≠ '.')
+
+theorem lowerC_keepsSep : KeepsSep lowerC :=
+  ⟨by decide, by decide, lowerC_ne_colon, lowerC_ne_dot⟩
+
+theorem colon_not_mem_lower (lc : Char → Char) (hk : KeepsSep lc) (h : List Char) (hh : ':' ∉ h) :
+    ':' ∉ lower lc h := by
   intro hm
   simp only [lower, List.mem_map] at hm
   obtain ⟨c, hc, hcl⟩ := hm
   by_cases he : c = ':'
   · exact hh (he ▸ hc)
-  · exact lowerC_ne_colon c he hcl
+  · exact hk.2.2.1 c he hcl
 
 theorem stripPort_append (h port : List Char) (hh : ':' ∉ h) : stripPort (h ++ ':' :: port) = h := by
   induction h with
@@ -54,11 +62,12 @@ theorem stripPort_self (h : List Char) (hh : ':' ∉ h) : stripPort h = h := by
     simp [stripPort] at ih' ⊢
     simp [hc, ih']
 
-theorem probePath_port (h port : List Char) (hh : ':' ∉ h) : probePath (h ++ ':' :: port) = probePath h := by
+theorem probePath_port (lc : Char → Char) (hk : KeepsSep lc) (h port : List Char) (hh : ':' ∉ h) :
+    probePath lc (h ++ ':' :: port) = probePath lc h := by
   unfold probePath
-  have hl : lower (h ++ ':' :: port) = lower h ++ ':' :: lower port := by
-    simp [lower, lowerC]
-  rw [hl, stripPort_append _ _ (colon_not_mem_lower h hh), stripPort_self _ (colon_not_mem_lower h hh)]
+  have hl : lower lc (h ++ ':' :: port) = lower lc h ++ ':' :: lower lc port := by
+    simp [lower, hk.1]
+  rw [hl, stripPort_append _ _ (colon_not_mem_lower lc hk h hh), stripPort_self _ (colon_not_mem_lower lc hk h hh)]
 
 theorem reverseFqdn_snoc_dot (x : List Char) : reverseFqdn (x ++ ['.']) = x.reverse := by
   simp [reverseFqdn]
@@ -73,7 +82,8 @@ theorem reverseFqdn_nodot (x : List Char) (h : x.getLast? ≠ some '.') : revers
     rw [this]; simp
   · rfl
 
-theorem getLast?_lower (h : List Char) (hd : h.getLast? ≠ some '.') : (lower h).getLast? ≠ some '.' := by
+theorem getLast?_lower (lc : Char → Char) (hk : KeepsSep lc) (h : List Char) (hd : h.getLast? ≠ some '.') :
+    (lower lc h).getLast? ≠ some '.' := by
   unfold lower
   rw [List.getLast?_map]
   cases hg : h.getLast? with
@@ -81,19 +91,19 @@ theorem getLast?_lower (h : List Char) (hd : h.getLast? ≠ some '.') : (lower h
   | some c =>
     simp only [Option.map_some, ne_eq, Option.some.injEq]
     have : c ≠ '.' := by intro e; apply hd; rw [hg, e]
-    exact lowerC_ne_dot c this
+    exact hk.2.2.2 c this
 
-theorem probePath_dot (h : List Char) (hh : ':' ∉ h) (hd : h.getLast? ≠ some '.') :
-    probePath (h ++ ['.']) = probePath h := by
+theorem probePath_dot (lc : Char → Char) (hk : KeepsSep lc) (h : List Char) (hh : ':' ∉ h)
+    (hd : h.getLast? ≠ some '.') : probePath lc (h ++ ['.']) = probePath lc h := by
   unfold probePath
-  have hl : lower (h ++ ['.']) = lower h ++ ['.'] := by simp [lower, lowerC]
-  have hc : ':' ∉ lower h ++ ['.'] := by
+  have hl : lower lc (h ++ ['.']) = lower lc h ++ ['.'] := by simp [lower, hk.2.1]
+  have hc : ':' ∉ lower lc h ++ ['.'] := by
     intro hm
     rcases List.mem_append.mp hm with h1 | h1
-    · exact colon_not_mem_lower h hh h1
+    · exact colon_not_mem_lower lc hk h hh h1
     · simp at h1
-  rw [hl, stripPort_self _ hc, stripPort_self _ (colon_not_mem_lower h hh), reverseFqdn_snoc_dot,
-    reverseFqdn_nodot _ (getLast?_lower h hd)]
+  rw [hl, stripPort_self _ hc, stripPort_self _ (colon_not_mem_lower lc hk h hh), reverseFqdn_snoc_dot,
+    reverseFqdn_nodot _ (getLast?_lower lc hk h hd)]
 
 theorem lowerC_upperAscii (c : Char) : lowerC (upperAscii c) = lowerC c := by
   unfold upperAscii
@@ -114,9 +124,9 @@ theorem lowerC_upperAscii (c : Char) : lowerC (upperAscii c) = lowerC c := by
     exact Char.ofNat_toNat c
   · rfl
 
-theorem probePath_case (h : List Char) : probePath (h.map upperAscii) = probePath h := by
+theorem probePath_case (h : List Char) : probePath lowerC (h.map upperAscii) = probePath lowerC h := by
   unfold probePath
-  have : lower (h.map upperAscii) = lower h := by
+  have : lower lowerC (h.map upperAscii) = lower lowerC h := by
     simp [lower, List.map_map, Function.comp_def, lowerC_upperAscii]
   rw [this]
 
@@ -162,7 +172,39 @@ theorem specExact_perm (ps ps' : List (List Label × Route)) (hp : ps.Perm ps')
       have := (specExact_eq_some_iff ps' hnd' l r).mpr (hp.mem_iff.mp ((specExact_eq_some_iff ps hnd l r).mp h2))
       rw [h] at this; cases this
 
-theorem patterns_perm (es es' : List Entry) (hp : es.Perm es') : (patterns es).Perm (patterns es') :=
+theorem patterns_perm (lc : Char → Char) (es es' : List Entry) (hp : es.Perm es') : (patterns lc es).Perm (patterns lc es') :=
   hp.filterMap _
+
+
+/-- without a leading `[` the specification's host part is the code's (cut at the first colon) -/
+theorem specHostPart_eq_stripPort (s : List Char) (h : s.head? ≠ some '[') : specHostPart s = stripPort s := by
+  unfold specHostPart stripPort
+  split
+  · next rest => simp at h
+  · rfl
+
+theorem specProbeLabels_eq (lc : Char → Char) (host : List Char) (h : (lower lc host).head? ≠ some '[') :
+    specProbeLabels lc host = probeLabels lc host := by
+  unfold specProbeLabels probeLabels
+  rw [specHostPart_eq_stripPort _ h]
+
+theorem lookup_eq_some_iff {α β} [BEq α] [LawfulBEq α] (l : List (α × β)) (hnd : (l.map (·.1)).Nodup) (k : α) (v : β) :
+    l.lookup k = some v ↔ (k, v) ∈ l := by
+  induction l with
+  | nil => simp [List.lookup]
+  | cons p ps ih =>
+    obtain ⟨a, b⟩ := p
+    simp only [List.map_cons, List.nodup_cons] at hnd
+    have ih' := ih hnd.2
+    by_cases hk : k = a
+    · subst hk
+      simp only [List.lookup, beq_self_eq_true, Option.some.injEq, List.mem_cons, Prod.mk.injEq, true_and]
+      constructor
+      · intro e; left; exact e.symm
+      · rintro (e | e)
+        · exact e.symm
+        · exact absurd (List.mem_map_of_mem (f := (·.1)) e) hnd.1
+    · have hb : (k == a) = false := by simpa using hk
+      simp only [List.lookup, hb, ih', List.mem_cons, Prod.mk.injEq, hk, false_and, false_or]
 
 end BfeVerif.C10
